@@ -37,7 +37,10 @@ DEFAULT_SET = {"authorization", "cookie", "proxy-authorization"}     # documente
 CONTENT_NAMES = {"content-type", "content-language", "content-encoding", "content-location",
                  "content-length", "digest", "last-modified"}
 SPELLINGS = ("canonical", "lower", "upper", "alternating")
-CONTAINERS = ("dict", "hd", "manager")
+CONTAINERS = ("dict", "hd", "manager", "mgr+req")
+# names a client adds on its own account (never "appeared" headers)
+AUTOMATIC = {"host", "accept-encoding", "user-agent", "accept", "content-length", "transfer-encoding", "connection",
+             "proxy-connection"}
 REMOVE_SETS = ([], ["X-Api-Key"], ["x-API-key", "cookie"])
 FORMS6 = ("r", "h", "p", "s", "u", "e", "n")
 HOPNAME = {"same": "same-origin", "host": "cross-host", "port": "cross-port", "scheme": "cross-scheme", "none": "no-location"}
@@ -55,6 +58,10 @@ def spell(name, style):
 
 
 def header_list(spelling, container, post):
+    if container == "mgr+req":
+        # only fields of the DEFAULT strip set: after a cross-origin hop under the default policy the forwarded
+        # mapping is empty - which must not be mistaken for "no headers given" (the manager's defaults would return)
+        return [list((spell(k, spelling), v)) for k, v in SENSITIVE if k.lower() in DEFAULT_SET]
     hs = [(spell(k, spelling), v) for k, v in SENSITIVE] + list(INNOCUOUS)
     if container == "hd":
         hs += [(spell(k, spelling) if k == "Cookie" else k, v) for k, v in REPEATS]
@@ -127,6 +134,12 @@ def check_case(case, res, acc):
             cross_hop = "cross-scheme" if a[0] != b[0] else "cross-host" if a[1] != b[1] else "cross-port"
             acc.counters["first_" + cross_hop] += 1
         hm = _hdr_map(q["headers"])
+        for n in hm:
+            if n not in base and n not in AUTOMATIC and not (seen303 and n in CONTENT_NAMES):
+                # a header the caller did not send with this request shows up on a later hop
+                # (e.g. the manager's default headers coming back once everything else was stripped)
+                bad("header-appeared-after-redirect", cross_hop if crossed else "same-origin",
+                    {"request": j, "to": q["origin"], "header": n, "value": hm[n]}, {"headers of the first request": sorted(base)})
         for n in supplied:
             if n not in base:
                 continue
@@ -309,8 +322,8 @@ def run(ctx):
     ocs = set(o[2] for o in acc.outcomes)
     cov = {
         "distinct_nontrivial": c["nontrivial"],
-        "rule": "product {PoolManager, ProxyManager} x 4 header spellings x 3 containers (dict, HTTPHeaderDict with repeated "
-                "fields, manager default headers=) x 7 strip policies (default; 3 custom sets at request level and at manager "
+        "rule": "product {PoolManager, ProxyManager} x 4 header spellings x 4 containers (dict, HTTPHeaderDict with repeated "
+                "fields, manager default headers=, manager defaults + request headers made of default-strip-set fields only) x 7 strip policies (default; 3 custom sets at request level and at manager "
                 "level) x all chains of the tier's chain list over 7 origin-relation Location forms; plus single-host pools x "
                 "spellings x containers x {http, https} x cross-origin Location forms; every tuple is a distinct case; "
                 "non-trivial = at least one redirect followed or refused",
